@@ -382,3 +382,34 @@ pub fn replay_unit(ctx: &Ctx) -> i32 {
         },
     }
 }
+
+/// Replay for C17: compile the saved unit; a violation only if the macro panics / rustc crashes.
+pub fn replay_unit_panic(ctx: &Ctx, path: &Path) -> i32 {
+    let Some(v) = read_replay(path) else {
+        println!("INCONCLUSIVE property={}: cannot read replay file {}", ctx.prop, path.display());
+        return EXIT_INCONCLUSIVE;
+    };
+    let Some(body) = v["unit_body"].as_str() else {
+        println!("INCONCLUSIVE property={}: replay file has no unit_body", ctx.prop);
+        return EXIT_INCONCLUSIVE;
+    };
+    let so = match engine::build_proc_macro() {
+        Ok(s) => s,
+        Err(e) => {
+            println!("INCONCLUSIVE property={}: {}", ctx.prop, e.0);
+            return EXIT_INCONCLUSIVE;
+        },
+    };
+    let tag = format!("replay-{}-{}", ctx.prop, std::process::id());
+    let out = engine::eval_batch(&tag, &[Unit { body: body.to_string(), has_run: false }], &so, "", false);
+    clean_work(&tag);
+    let o = &out.units[0];
+    if o.proc_macro_panic || o.died.is_some() {
+        println!("VIOLATION property={} replay={}", ctx.prop, path.display());
+        println!("  detail: {:?} {:?}", o.compile_errors.iter().take(2).collect::<Vec<_>>(), o.died);
+        EXIT_VIOLATION
+    } else {
+        println!("PASS property={} replay={} (no panic)", ctx.prop, path.display());
+        EXIT_OK
+    }
+}
